@@ -38,7 +38,7 @@ func MatchPatternScanner(scanner *bufio.Scanner, patterns []string, opts ...Matc
 	}
 
 	// Apply options
-	options := &matchOptions{}
+	options := &matchOptions{logger: logger.Default}
 	for _, opt := range opts {
 		opt(options)
 	}
